@@ -230,6 +230,9 @@ impl log4rs::config::Deserialize for ScriptedDeserializer {
     }
 }
 
+/// how often the end of a history found a rotation still running (shows that the build really rotates in the background)
+pub static BG_WAITS: std::sync::atomic::AtomicUsize = std::sync::atomic::AtomicUsize::new(0);
+
 struct World {
     act_dir: Option<PathBuf>,
     dir: PathBuf,
@@ -252,6 +255,37 @@ impl World {
             self.dir.join("w{}").join(leaf.replace(".{}", "")).to_string_lossy().to_string()
         } else {
             self.dir.join(leaf).to_string_lossy().to_string()
+        }
+    }
+    /// background rotation (harness feature `bgrot`): roll() renames the active file to `active.<seconds>` and a
+    /// thread rotates it into the window; the directory is the specification's at quiescence, i.e. once no such
+    /// temporary file is left (BackgroundRotation.tla, QuiescentWindow)
+    fn settle(&self) -> Result<(), String> {
+        if !cfg!(feature = "bgrot") {
+            return Ok(());
+        }
+        let act_dir = self.act().parent().unwrap().to_path_buf();
+        let t0 = std::time::Instant::now();
+        loop {
+            let pending: Vec<String> = fs::read_dir(&act_dir)
+                .into_iter()
+                .flatten()
+                .flatten()
+                .map(|e| e.file_name().to_string_lossy().to_string())
+                .filter(|n| n.strip_prefix("active.").map(|x| !x.is_empty() && x.chars().all(|c| c.is_ascii_digit())).unwrap_or(false))
+                .collect();
+            if !pending.is_empty() {
+                BG_WAITS.fetch_add(1, std::sync::atomic::Ordering::Relaxed);
+            }
+            if pending.is_empty() {
+                // the rotation thread sets `ready` right after its last move; give it the moment to do so
+                std::thread::sleep(std::time::Duration::from_micros(200));
+                return Ok(());
+            }
+            if t0.elapsed() > std::time::Duration::from_secs(10) {
+                return Err(format!("temporary files never archived: {:?}", pending));
+            }
+            std::thread::sleep(std::time::Duration::from_micros(300));
         }
     }
     /// the projection compared with the specification's `disk`
@@ -346,6 +380,13 @@ pub fn replay_case(case: &Value, mat: Mat) -> Option<Value> {
     let buf_floor = p["buf"].as_u64().unwrap_or(0);
     if buf_floor != 0 && (if 1024 / mat.unit >= 50 { 99 } else { 1024 / mat.unit as u64 }) != buf_floor {
         return None;
+    }
+    if cfg!(feature = "bgrot") {
+        // fault hooks are per thread and would not reach the rotation thread; errors of a background rotation are
+        // not returned to the appender: only unperturbed histories are replayed in this build
+        if case["ops"].as_array().unwrap().iter().any(|o| matches!(o["op"].as_str(), Some("arm") | Some("obstruct")) || matches!(o["res"].as_str(), Some("crash") | Some("encfail"))) {
+            return None;
+        }
     }
     let scratch = Scratch::new("roll");
     let other = if mat.cross_mount {
@@ -453,10 +494,17 @@ pub fn replay_case(case: &Value, mat: Mat) -> Option<Value> {
                     Err(pn) => return fail(si, "appender build panicked", json!(pn)),
                 }
                 }
-                let got = world.observe();
-                let want = norm_expected(&op["disk"], base);
-                if got != want {
-                    return fail(si, "directory after build", json!({"expected": want, "actual": got}));
+                // (with background rotation the directory is compared at the end of the history only: appends and
+                // restarts overlap the rotation thread)
+                if !cfg!(feature = "bgrot") || si + 1 == ops.len() {
+                    if let Err(e) = world.settle() {
+                        return fail(si, "background rotation did not finish", json!(e));
+                    }
+                    let got = world.observe();
+                    let want = norm_expected(&op["disk"], base);
+                    if got != want {
+                        return fail(si, "directory after build", json!({"expected": want, "actual": got}));
+                    }
                 }
             }
             "decide" => decisions.lock().unwrap().push_back(op["fire"].as_bool().unwrap()),
@@ -511,6 +559,8 @@ pub fn replay_case(case: &Value, mat: Mat) -> Option<Value> {
                     let taken = HOOK.with(|h| {
                         let mut h = h.borrow_mut();
                         h.crash = None;
+                        // the process is dead: an armed fault dies with it (Rolling.tla, Crash: fault' = NoFault)
+                        h.fault = None;
                         h.image_taken
                     });
                     if let Err(pn) = r {
@@ -561,10 +611,15 @@ pub fn replay_case(case: &Value, mat: Mat) -> Option<Value> {
                     };
                     return fail(si, "append result", json!({"expected": res, "actual": got_res, "detail": detail}));
                 }
-                let got = world.observe();
-                let want = norm_expected(&op["disk"], base);
-                if got != want {
-                    return fail(si, "directory after append", json!({"expected": want, "actual": got}));
+                if !cfg!(feature = "bgrot") || si + 1 == ops.len() {
+                    if let Err(e) = world.settle() {
+                        return fail(si, "background rotation did not finish", json!(e));
+                    }
+                    let got = world.observe();
+                    let want = norm_expected(&op["disk"], base);
+                    if got != want {
+                        return fail(si, "directory after append", json!({"expected": want, "actual": got}));
+                    }
                 }
                 if !decisions.lock().unwrap().is_empty() {
                     return fail(si, "scripted trigger was not consulted as often as the specification says", Value::Null);
@@ -610,5 +665,6 @@ pub fn main(args: &[String]) {
     });
     write_ndjson(&args[1], &res);
     println!("{}", json!({"cases": rows.len(), "materialisations": mats.len(), "mismatches": res.len(),
-                          "cross_mount_available": Scratch::other_mount("probe").is_some()}));
+                          "cross_mount_available": Scratch::other_mount("probe").is_some(),
+                          "background_rotation": cfg!(feature = "bgrot"), "waited_for_background_rotation": BG_WAITS.load(std::sync::atomic::Ordering::Relaxed)}));
 }
